@@ -487,6 +487,15 @@ func (r *Run) verifyTop() {
 		if !perPath {
 			g := r.evalBool(penv, cl)
 			r.oblige(out, "ensures", fmt.Sprintf("%s#ensures:%s", r.funcLabel(), cl.Label), mergeTags(cl.Tags, nil), g, cl.Src, true, fn.Pos())
+			if n := len(r.obls); n > 0 && r.obls[n-1].Replay != nil && r.obls[n-1].Kind == "ensures" {
+				var rv []replayVar
+				for i := 0; i < sig.Results().Len(); i++ {
+					if sv, ok := penv.vars[fmt.Sprintf("result%d", i)]; ok {
+						rv = append(rv, replayVar{Name: rn[i], Term: sv.t.S, T: sig.Results().At(i).Type()})
+					}
+				}
+				r.obls[n-1].Replay.Rets = [][]replayVar{rv}
+			}
 			continue
 		}
 		// one query per return path (no ite-merged heaps), reported as one obligation
@@ -518,6 +527,18 @@ func (r *Run) verifyTop() {
 			goals = append(goals, r.evalBool(e2, cl))
 		}
 		r.obligeMulti(sts, goals, "ensures", fmt.Sprintf("%s#ensures:%s", r.funcLabel(), cl.Label), mergeTags(cl.Tags, nil), cl.Src, true, fn.Pos())
+		// result terms per path, for the replay of a counterexample
+		if n := len(r.obls); n > 0 && r.obls[n-1].Replay != nil && r.obls[n-1].Kind == "ensures" {
+			for _, rr := range r.topRets {
+				var rv []replayVar
+				for i := 0; i < sig.Results().Len(); i++ {
+					if t, ok := rr.vals[i].(Term); ok {
+						rv = append(rv, replayVar{Name: rn[i], Term: t.S, T: sig.Results().At(i).Type()})
+					}
+				}
+				r.obls[n-1].Replay.Rets = append(r.obls[n-1].Replay.Rets, rv)
+			}
+		}
 	}
 	r.checkFrame(penv, entry, out)
 }
